@@ -17,9 +17,6 @@ import MdProofs.Lemmas.OnceWake
 namespace MdModel.Once
 open MdModel
 
-/-- the states the theorems talk about: reached from the initial state by some schedule -/
-def Reachable (cfg : Cfg) (s : State) : Prop := ∃ sched, s = exec cfg sched (init cfg)
-
 /-! ## 1. "the symbol supplier is asked at most once per distinct module" -/
 
 /-- **C12.1** in every reachable state the supplier call log holds at most one call per key. -/
@@ -36,11 +33,6 @@ example :
 
 /-! ## 2. "every requester of that module observes the same outcome, including a remembered
       failure" -/
-
-theorem seen_mem_expected {cfg : Cfg} {s : State} (h : InvA cfg s) {t k : Nat} {r : Res}
-    (hm : Event.seen t k r ∈ s.log) : (k, r) ∈ (cfg.prog t).map (expected cfg) := by
-  rw [← h.results t]
-  exact List.mem_append_left _ (mem_seenBy.mpr hm)
 
 /-- **C12.2a** whatever a requester observes for key `k` is the outcome the supplier gave for `k`
     (`ok`, `notFound` or `parseError` alike — failures are remembered, not retried). -/
@@ -98,50 +90,6 @@ example :
 
 /-! ## 4. "the pending counters end with requested = processed = number of distinct modules" -/
 
-/-- the keys task `t` has begun to look up: those it has an answer for, and the one it is in
-    the middle of -/
-def begun (s : State) (t : Nat) : List Nat :=
-  (seenBy t s.log).map Prod.fst ++
-    (match (s.task t).ctl with
-     | .waiting k => [k]
-     | .inSup k _ => [k]
-     | _ => [])
-
-/-- distinct keys some task has begun to look up -/
-def startedKeys (cfg : Cfg) (s : State) : List Nat :=
-  (allKeys cfg).filter fun k => (List.range cfg.ntasks).any fun t => (begun s t).contains k
-
-theorem lt_ntasks_of_seen {cfg : Cfg} {s : State} (h : InvA cfg s) {t k : Nat} {r : Res}
-    (hm : Event.seen t k r ∈ s.log) : t < cfg.ntasks := by
-  have := seen_mem_expected h hm
-  by_cases ht : t < cfg.ntasks
-  · exact ht
-  · exfalso
-    have : cfg.prog t = [] := by
-      unfold Cfg.prog Cfg.ntasks at *
-      have : cfg.progs.length ≤ t := by omega
-      simp [List.getD_eq_getElem?_getD, this]
-    simp_all
-
-theorem nonEmpty_started {cfg : Cfg} {s : State} (h : InvA cfg s) (k : Nat)
-    (hne : (s.slot k).nonEmpty = true) :
-    ((List.range cfg.ntasks).any fun t => (begun s t).contains k) = true := by
-  rw [List.any_eq_true]
-  cases hs : s.slot k with
-  | empty => simp [hs, Slot.nonEmpty] at hne
-  | held u =>
-    obtain ⟨n, hn⟩ := h.held_insup k u hs
-    have hu : u < cfg.ntasks := by
-      by_cases hu : u < cfg.ntasks
-      · exact hu
-      · have := h.ghost u (by omega); rw [hn] at this; cases this
-    exact ⟨u, List.mem_range.mpr hu, by simp [begun, hn]⟩
-  | done r =>
-    obtain ⟨u, hu⟩ := h.done_seen k r hs
-    refine ⟨u, List.mem_range.mpr (lt_ntasks_of_seen h hu), ?_⟩
-    simp only [begun, List.contains_eq_mem, List.mem_append, List.mem_map, decide_eq_true_eq]
-    exact Or.inl ⟨(k, r), mem_seenBy.mpr hu, rfl⟩
-
 /-- **C12.3a** `counters`, at every moment:
     `processed ≤ requested ≤ #distinct keys started ≤ #distinct keys of all programs`. -/
 theorem counters (cfg : Cfg) (sched : List Nat) :
@@ -157,16 +105,6 @@ theorem counters (cfg : Cfg) (sched : List Nat) :
     cases hs : s.slot k <;> simp_all [Slot.isDone, Slot.nonEmpty]
   · rw [h.req_eq]
     exact filter_length_mono _ _ _ (fun k hk => nonEmpty_started h k hk)
-
-theorem exists_task_of_key {cfg : Cfg} {k : Nat} (hk : k ∈ allKeys cfg) :
-    ∃ t, t < cfg.ntasks ∧ k ∈ cfg.prog t := by
-  unfold allKeys at hk
-  rw [mem_dedup, List.mem_flatten] at hk
-  obtain ⟨l, hl, hkl⟩ := hk
-  obtain ⟨t, ht, rfl⟩ := List.getElem_of_mem hl
-  refine ⟨t, ht, ?_⟩
-  unfold Cfg.prog
-  simp [List.getD_eq_getElem?_getD, ht, hkl]
 
 /-- **C12.3** once every task has finished: `requested = processed = number of distinct keys`. -/
 theorem counters_final (cfg : Cfg) (sched : List Nat)
